@@ -26,7 +26,7 @@ TNext ==
         THEN mon' = MonInit /\ sid' = e.id /\ drift' = "" /\ p' = Idle(e.mode)
         ELSE /\ mon' = MonStep(mon, e)
              /\ sid' = sid
-             /\ IF drift # "" \/ e.e = "End"
+             /\ IF drift # "" \/ e.e \in {"End", "Fds"}
                 THEN UNCHANGED <<p, drift>>
                 ELSE IF Enabled(p, e)
                      THEN p' = Apply(p, e) /\ drift' = ""
